@@ -37,6 +37,7 @@ func randCfg(rng *rand.Rand) Cfg {
 	c.MaxSnaps = pick(rng, 1, 2, 3, 10)
 	c.Cache = pick(rng, 1, 64, 300, 4096, 1<<20)
 	c.FileSize = pick(rng, 256, 1024, 1<<16, 1<<22)
+	c.NLogFiles = pick(rng, 0, 0, 0, 1, 2)
 	return c
 }
 
@@ -325,7 +326,7 @@ func genCase(seed int64, nOps int, profile string) (res *caseResult, err error) 
 			}
 			for i := range x.recs {
 				if x.recs[i] == "" {
-					x.recs[i] = "OSync"
+					x.recs[i] = "OSnapClose 999999 false" // no-op placeholder for a read that never finished
 				}
 			}
 			res, err = x.result(profile+"/panic"), nil
@@ -333,6 +334,22 @@ func genCase(seed int64, nOps int, profile string) (res *caseResult, err error) 
 	}()
 	g := &gen{rng: rng, cfg: cfg, x: x, nextID: 1}
 	g.alpha = pick(rng, []byte("ab"), []byte("abc"), []byte{0x00, 0x61, 0xff}, []byte{0x61, 0x62, 0xfe, 0xff}, []byte("abcdefgh"))
+	// an operation that must not fail (flush, sync, close+open, snapshot close) failed: that is a
+	// violation of THIS case (cut short here), not a failure of the harness run
+	defer func() {
+		if err != nil && res == nil {
+			x.viol = append(x.viol, fmt.Sprintf("op#%d: %v (case cut short)", len(x.recs), err))
+			for _, sn := range x.snaps {
+				sn.pend = nil
+			}
+			for i := range x.recs {
+				if x.recs[i] == "" {
+					x.recs[i] = "OSnapClose 999999 false"
+				}
+			}
+			res, err = x.result(profile+"/failed-op"), nil
+		}
+	}()
 	advCase := profile == "adversarial"
 	rollbackAt := -1
 	if profile == "rollback" {
@@ -447,16 +464,62 @@ func probeCases() ([]*caseResult, error) {
 			{Kind: "get", Key: hs([]byte("a"))}, {Kind: "ts"}, {Kind: "flush"}, {Kind: "reopen"},
 			{Kind: "get", Key: hs([]byte("a"))}, {Kind: "ts"}},
 	}
+	// a reader on an open snapshot must survive a synced flush with full cleanup (the nodes it still
+	// has to load must not be discarded); tiny cache so that the reader holds nodes the flush does
+	// not see
+	var sc []Op
+	for i := 0; i < 40; i++ {
+		sc = append(sc, kv(fmt.Sprintf("k%02d", i), "v", 0))
+		if i%7 == 0 {
+			sc = append(sc, Op{Kind: "flush"})
+		}
+	}
+	sc = append(sc, Op{Kind: "flush", Synced: true}, Op{Kind: "snap", Snap: 1},
+		Op{Kind: "read", Snap: 1, Mode: "latest", Defer: 2}, Op{Kind: "read", Snap: 1, Mode: "history", Desc: true, Defer: 2},
+		Op{Kind: "flush", Pct: 100, Synced: true}, Op{Kind: "ts"}, Op{Kind: "ts"},
+		Op{Kind: "get", Snap: 1, Key: hs([]byte("k20"))}, Op{Kind: "read", Snap: 1, Mode: "latest"},
+		kv("k05", "w", 0), Op{Kind: "flush", Pct: 50, Synced: true}, Op{Kind: "read", Snap: 1, Mode: "latest", Desc: true},
+		Op{Kind: "snapclose", Snap: 1})
+	scripts["probe/snapshot-reader-survives-cleanup"] = sc
+	// many chunk files (FileSize 256) and batches that make innerNode.updateOnInsert load children
+	// from different chunks in parallel: more chunks are read at once than the multiapp cache holds
+	var mc []Op
+	for i := 0; i < 64; i++ {
+		mc = append(mc, kv(fmt.Sprintf("%c%c%c", 'a'+i%8, 'a'+(i/8)%8, 'a'+i%5), "v", 0))
+		if i%4 == 3 {
+			mc = append(mc, Op{Kind: "flush"})
+		}
+	}
+	for r := 0; r < 40; r++ {
+		var b []KVT
+		for j := 0; j < 16; j++ {
+			i := (r*7 + j*4) % 64
+			b = append(b, KVT{K: hs([]byte(fmt.Sprintf("%c%c%c", 'a'+i%8, 'a'+(i/8)%8, 'a'+i%5))), V: hs([]byte{byte(r), byte(j)})})
+		}
+		mc = append(mc, Op{Kind: "insert", Kvts: b}, Op{Kind: "flush"})
+	}
+	scripts["probe/many-chunks-parallel-insert"] = mc
+	cfgs := map[string]Cfg{
+		"probe/snapshot-reader-survives-cleanup": {MaxNode: 70, MaxKey: 4, MaxVal: 4, FlushThld: 100000, SyncThld: 1000000,
+			MaxBuf: 1 << 22, CompThld: 1, MaxSnaps: 10, Cache: 1, FileSize: 1024},
+		"probe/many-chunks-parallel-insert": {MaxNode: 66, MaxKey: 4, MaxVal: 4, FlushThld: 100000, SyncThld: 1000000,
+			MaxBuf: 1 << 22, CompThld: 1, MaxSnaps: 10, Cache: 1, FileSize: 256, NLogFiles: 1},
+	}
 	var out []*caseResult
-	for _, name := range []string{"probe/getbetween-chain-overrun", "probe/rollback-after-reopen"} {
+	for _, name := range []string{"probe/getbetween-chain-overrun", "probe/rollback-after-reopen",
+		"probe/snapshot-reader-survives-cleanup", "probe/many-chunks-parallel-insert"} {
+		cfg := cfg
+		if c, ok := cfgs[name]; ok {
+			cfg = c
+		}
 		x, err := newRunner(cfg)
 		if err != nil {
 			return nil, err
 		}
 		for _, o := range scripts[name] {
 			if err := x.exec(o); err != nil {
-				x.cleanup()
-				return nil, err
+				x.viol = append(x.viol, fmt.Sprintf("op#%d: %v (case cut short)", len(x.recs), err))
+				break
 			}
 		}
 		// the loaded content must still be there
